@@ -900,7 +900,18 @@ class Evaluator(object):
                         earlier.append(w)
                     if cpred != '_' and not cpred.startswith('not '):
                         earlier_preds.append(cpred)
-                g = guards + [Guard((node['sp'], 'arm:%d' % i, 'match', scs + ' ~ ' + pt, sc, {'pred': cpred, 'names': cnames, 'subject': sc}))]
+                nst = canon.nested(a['pat'])
+                if nst is not None and cnames is None and cpred != '_' and not cpred.startswith('not ') and ' | ' not in cpred:
+                    # `V(P)`: the variant test, then the test of its field -- as the nested match would guard it
+                    en, vn, sub = nst
+                    outer = canon.render(en, {vn}) if canon.variants_of(en) else '%s::%s(_)' % (en, vn)
+                    fld = ('field', sc, '%s.0' % vn)
+                    sen = canon.variant_of_pat(sub)
+                    spred, snames = canon.pattern_pred(sub, sen[0] if sen else None, [])
+                    g = guards + [Guard((node['sp'], 'arm:%d' % i, 'match', scs + ' ~ ' + pt, sc, {'pred': outer, 'names': {vn}, 'subject': sc})),
+                                  Guard((node['sp'] + '#in', 'arm:%d' % i, 'match', show(fld) + ' ~ ' + spred, fld, {'pred': spred, 'names': snames, 'subject': fld}))]
+                else:
+                    g = guards + [Guard((node['sp'], 'arm:%d' % i, 'match', scs + ' ~ ' + pt, sc, {'pred': cpred, 'names': cnames, 'subject': sc}))]
                 if a.get('guard') is not None:
                     gt = self.eval(a['guard'], aenv, g, fn, chain)
                     g = g + [Guard((a['sp'], 'guard', 'armguard', show(gt), gt))]
@@ -1474,6 +1485,11 @@ def iter_view(itt, it_node=None):
             ty = 'std::slice' if ty else ''
         if ty and not (n.get('e') or {}).get('ty', '').startswith('&'):
             itt = ('call', ty + ('::iter_mut' if n.get('mut') else '::iter'), (itt,), ())
+    if itt is not None and itt[0] == 'call' and itt[1] == 'std::iter::Iterator::map' and len(itt[2]) == 2 and itt[2][1] is not None and itt[2][1][0] == 'closure' and len(itt[2][1][2]) == 1:
+        # `for x in it.map(|p| f(p))` walks `it` with x = f(item): same loop, the item projected
+        base, bitem = iter_view(itt[2][0])
+        clo = itt[2][1]
+        return base, replace(clo[3], ('var', clo[2][0][0], clo[2][0][1]), bitem)
     if itt is not None and itt[0] == 'call' and itt[1] in ('std::collections::HashMap::keys', 'std::collections::HashMap::values') and len(itt[2]) == 1:
         base = ('call', 'std::collections::HashMap::iter', itt[2], ())
         return base, ('field', ('call', 'iter_item', (base,), ()), '0' if itt[1].endswith('keys') else '1')
